@@ -71,6 +71,15 @@ func ChildFor(prop string, seed int64, tier, cfgName, stateFile string, trees in
 	defer os.RemoveAll(dir)
 	p := chainsim.DefaultParams(uint64(seed), cfg.Testnet)
 	p.BIP34, p.BIP66, p.BIP65, p.CSV, p.Segwit, p.Taproot = 104, 106, 108, 110, 112, 114
+	if !cfg.Work && seed%2 == 1 {
+		// undo window inside the heights this history reaches (trees grow from ~115 upwards; never deeper than 12 blocks)
+		chainsim.UnwindBufLen = uint32(105 + seed%50)
+		run.Inc("histories_with_short_undo_window")
+	}
+	if cfg.Testnet && !cfg.Work {
+		chainsim.PoisonOnFree() // record life times as on the client's custom heap: what is freed is overwritten
+		run.Inc("histories_with_poison_on_free")
+	}
 	chainsim.SetPurge(cfg.Purge)
 	if cfg.Purge {
 		run.Inc("histories_with_purge_unspendable")
